@@ -1,6 +1,13 @@
 package props
 
 import (
+	"github.com/bolkedebruin/rdpgw/cmd/rdpgw/identity"
+	"github.com/bolkedebruin/rdpgw/cmd/rdpgw/web"
+	"net/http/httptest"
+	"context"
+	"path/filepath"
+	"os"
+	"sync"
 	"fmt"
 	"net"
 	"net/http"
@@ -348,4 +355,87 @@ func TestC12_BIN(t *testing.T) {
 		}
 		return nt, cl
 	}, runC12)
+}
+
+// ---- concurrent downloads (in-process handler): every file belongs to the session that asked for it ----
+
+type c12Conc struct {
+	Template bool `json:"administrator_template"`
+	Sessions int  `json:"concurrent_sessions"`
+	Each     int  `json:"downloads_each"`
+	Split    bool `json:"split_user_domain"`
+}
+
+func TestC12_CONC(t *testing.T) {
+	dir := t.TempDir()
+	runProp(t, "C12_CONC", func(t *rapid.T) c12Conc {
+		return c12Conc{Template: rapid.IntRange(0, 3).Draw(t, "template") > 0, Sessions: rapid.IntRange(2, 12).Draw(t, "sessions"), Each: rapid.IntRange(50, 600).Draw(t, "each"), Split: rapid.Bool().Draw(t, "split")}
+	}, func(c c12Conc) (bool, []string) { return true, []string{fmt.Sprintf("template=%v", c.Template)} }, func(c c12Conc) *Violation {
+		var hosts []string
+		for s := 0; s < c.Sessions; s++ {
+			hosts = append(hosts, fmt.Sprintf("desk%02d.example.com:3389", s))
+		}
+		gwURL, _ := url.Parse("https://gw.example.test:8443/")
+		cfg := &web.Config{
+			PAATokenGenerator: func(_ context.Context, user string, host string) (string, error) { return "token|" + user + "|" + host, nil },
+			Hosts:             hosts, HostSelection: "unsigned", GatewayAddress: gwURL,
+			RdpOpts:           web.RdpOpts{SplitUserDomain: c.Split},
+		}
+		if c.Template {
+			fn := filepath.Join(dir, "template.rdp")
+			os.WriteFile(fn, []byte("audiomode:i:2\r\nsmart sizing:i:1\r\ndomain:s:TEMPLATEDOM\r\n"), 0o600)
+			cfg.TemplateFile = fn
+		}
+		h := cfg.NewHandler()
+		errs := make(chan string, c.Sessions)
+		var wg sync.WaitGroup
+		for s := 0; s < c.Sessions; s++ {
+			wg.Add(1)
+			go func(s int) {
+				defer wg.Done()
+				user := fmt.Sprintf("user%02d@corp%02d.example", s, s)
+				wantUser, wantDomain := user, ""
+				if c.Split {
+					wantUser, wantDomain = fmt.Sprintf("user%02d", s), fmt.Sprintf("corp%02d.example", s)
+				}
+				for i := 0; i < c.Each; i++ {
+					id := identity.NewUser()
+					id.SetUserName(user)
+					id.SetAuthenticated(true)
+					req := httptest.NewRequest("GET", "/connect?host="+url.QueryEscape(hosts[s]), nil)
+					req = identity.AddToRequestCtx(id, req)
+					rr := httptest.NewRecorder()
+					h.HandleDownload(rr, req)
+					m, ok := parseRDP(rr.Body.String())
+					if rr.Code != 200 || !ok {
+						errs <- fmt.Sprintf("session %d download %d: status %d", s, i, rr.Code)
+						return
+					}
+					if got := rdpString(m, "full address"); got != hosts[s] {
+						errs <- fmt.Sprintf("session %d (user %s) asked for %s, its file names %s", s, user, hosts[s], got)
+						return
+					}
+					if got := rdpString(m, "username"); got != wantUser {
+						errs <- fmt.Sprintf("session %d: user name in its file is %q, want %q", s, got, wantUser)
+						return
+					}
+					if got := rdpString(m, "domain"); c.Split && got != wantDomain {
+						errs <- fmt.Sprintf("session %d: domain in its file is %q, want %q", s, got, wantDomain)
+						return
+					}
+					if got := rdpString(m, "gatewayaccesstoken"); got != "token|"+wantUser+"|"+hosts[s] {
+						errs <- fmt.Sprintf("session %d (user %s, host %s): the access token in its file was issued for %q", s, wantUser, hosts[s], got)
+						return
+					}
+				}
+			}(s)
+		}
+		wg.Wait()
+		select {
+		case e := <-errs:
+			return viol("c12/file-of-another-session", "%s (%d sessions downloading concurrently, template %v)", e, c.Sessions, c.Template)
+		default:
+		}
+		return nil
+	})
 }
